@@ -36,6 +36,8 @@ instance (g : Genesis) : Decidable (GenesisOK g) := by unfold GenesisOK; infer_i
     InitChain, well-formed hex in delivered transactions -/
 def History (ops : List Op) : Prop := ∀ op ∈ ops, op.isInit = false ∧ op.HexOK
 
+instance (ops : List Op) : Decidable (History ops) := by unfold History; infer_instance
+
 theorem History.snoc {ops : List Op} {op : Op} (h : History (ops ++ [op])) :
     History ops ∧ op.isInit = false ∧ op.HexOK :=
   ⟨fun o ho => h o (by simp [ho]), h op (by simp)⟩
